@@ -294,7 +294,8 @@ def site_specs(draw, kinds, qn=0, real_only=False):
     if k == "spin":
         s = {"k": "spin"}
         if qn == 1:
-            s["qn"] = draw(st.sampled_from([[[0], [1]], [[1], [0]], [[0], [0]]]))
+            # incl. labels of both signs (2*S_z)
+            s["qn"] = draw(st.sampled_from([[[0], [1]], [[1], [0]], [[0], [0]], [[1], [-1]], [[-1], [1]], [[0], [1]]]))
         elif qn == 2:
             s["qn"] = draw(st.sampled_from([[[0, 0], [1, 0]], [[0, 0], [0, 1]], [[0, 0], [0, 0]]]))
         return s
